@@ -23,6 +23,8 @@ pub mod state;
 pub mod streaming;
 pub mod tcp;
 pub mod versioning;
+#[cfg(iggy_verif)]
+pub mod verif;
 
 const VERSION: &str = env!("CARGO_PKG_VERSION");
 const IGGY_ROOT_USERNAME_ENV: &str = "IGGY_ROOT_USERNAME";
